@@ -68,7 +68,8 @@ def check_unit(case, rec):
 @st.composite
 def wild_case(draw):
     cmd = draw(st.sampled_from(CMDS))
-    return draw(G.unit_case([cmd], max_rank=3, max_cells=30, wild=True, wide=cmd not in R.FUZZY_INPUT))
+    return draw(G.unit_case([cmd], max_rank=3, max_cells=30, wild=True, wide=cmd not in R.FUZZY_INPUT,
+                            dtypes=("float64", "int64", "float64", "float32", "int32")))
 
 
 def check_model(model, rec):
